@@ -50,13 +50,15 @@ class OnDiskBytesDict(dict):
     def __setitem__(self, key, value):
         assert isinstance(value, bytes), "Can only set bytes"
 
-        if key in self._key_to_filename:
-            self._delete(key)
-
+        # Register the file only once it is completely written, so that a
+        # failed write never leaves a key pointing to partial data.
         filename = str(uuid4())
-        self._key_to_filename[key] = filename
         with open(self._tmp_dir / filename, "wb") as fp:
             fp.write(value)
+
+        if key in self._key_to_filename:
+            self._delete(key)
+        self._key_to_filename[key] = filename
 
     def __getitem__(self, key):
         filename = self._key_to_filename[key]
@@ -108,20 +110,26 @@ class OnDiskByteArray:
         return self._len
 
     def __add__(self, o):
-        self._len += len(o)
-        with open(self._file, "ab") as fp:
+        # Write at the recorded length (not at the end of the file) and record
+        # the new length only after the write succeeded: bytes left behind by
+        # a failed write are overwritten or ignored, never taken for data.
+        with open(self._file, "r+b" if self._len else "wb") as fp:
+            fp.seek(self._len)
             fp.write(o)
+        self._len += len(o)
         return self
 
     def __radd__(self, o):
         return self.__add__(o)
 
     def __iter__(self):
+        remaining = self._len
         with open(self._file, "rb") as fp:
-            while True:
-                data = fp.read(self._READ_SIZE)
+            while remaining > 0:
+                data = fp.read(min(self._READ_SIZE, remaining))
                 if not data:
                     break
+                remaining -= len(data)
                 yield data
 
 
